@@ -1084,20 +1084,16 @@ pub fn oracle_c06_c07(w: &World, so: &StepObs, out: &mut StepOut, do6: bool, do7
                     _ => "unclassified",
                 };
                 // the error text only helps to tell causes apart; a refusal whose text the harness does not know
-                // ("other") in the situation of a listed finding is that finding
+                // ("other") in a situation in which a listed finding is certain to refuse the liquidation is that finding
                 let (cls, refine) = if refine == "unclassified" && cls == "other" {
                     if cfg.real_feed {
                         ("response-parse".to_string(), "real-price-feed")
-                    } else if partial_path && r < 0 {
-                        ("overflow-sub".to_string(), "partial-path-negative-ratio")
                     } else if swap_input_branch {
                         ("overflow-sub".to_string(), "partial-path-slice-worth-more-than-open-notional")
                     } else if partial_path && spot_pnl.abs() * cfg.plr as i128 / di() + partial_penalty > pp.margin.u128() as i128 {
                         ("overflow-sub".to_string(), "partial-path-spot-pnl-share-plus-penalty-exceeds-margin")
                     } else if partial_path && vault < partial_penalty {
                         ("transfer-failure".to_string(), "partial-path-vault-below-penalty")
-                    } else if !partial_path && vault < rem {
-                        ("transfer-failure".to_string(), "vault-below-remaining-margin")
                     } else {
                         (cls, refine)
                     }
